@@ -75,7 +75,11 @@ Definition parse_one (M : cmodel) (self : cls) (f : field) : items :=
              i_fks := [{| fk_name := o2o_fk_name (f_name f); fk_target := full_primary_key_name tt primary_key_name;
                           fk_opt := is_optional w |}];
              i_rels := [{| rel_name := o2o_rel_name (f_name f); rel_target := tt; rel_uselist := false;
-                           rel_fk := o2o_fk_name (f_name f); rel_secondary := "" |}];
+                           rel_fk := o2o_fk_name (f_name f); rel_secondary := "";
+                           (* remote_side when walking target.parent_table upwards reaches the own table *)
+                           rel_remote := if existsb (fun a => String.eqb (c_name a) (c_name self))
+                                                    (tc :: ancestors (List.length M) M tc)
+                                         then full_primary_key_name tt primary_key_name else "" |}];
              i_assoc := []; i_imports := []; i_err := false |}
       | None => err_items
       end
@@ -93,7 +97,7 @@ Definition parse_one (M : cmodel) (self : cls) (f : field) : items :=
           let an := o2m_association_table_name self_table (f_name f) in
           {| i_builtin := []; i_custom := []; i_fks := [];
              i_rels := [{| rel_name := o2m_rel_name (f_name f); rel_target := tt; rel_uselist := true;
-                           rel_fk := ""; rel_secondary := an |}];
+                           rel_fk := ""; rel_secondary := an; rel_remote := "" |}];
              i_assoc := [{| a_name := an; a_lfk := o2m_left_fk_name self_table;
                             a_lpk := full_primary_key_name self_table primary_key_name;
                             a_rfk := o2m_right_fk_name tt;
@@ -161,7 +165,7 @@ Definition col_sx (c : column) : sx :=
 Definition fk_sx (k : fkcol) : sx := SL [str_sx (fk_name k); str_sx (fk_target k); SB (fk_opt k); strs_set (fk_mods k)].
 Definition rel_sx (r : rel) : sx :=
   SL [str_sx (rel_name r); str_sx (rel_target r); SB (rel_uselist r); str_sx (rel_fk r); str_sx (rel_secondary r);
-      str_sx (rel_target r); strs_set (rel_mods r)].
+      str_sx (rel_target r); strs_set (rel_mods r); str_sx (rel_remote r)].
 Definition table_sx (t : table) : sx :=
   SL [str_sx (t_cls t); str_sx (t_module t); str_sx (t_name t);
       str_sx (match t_base t with Some b => b | None => "Base" end);
